@@ -5,12 +5,13 @@ Rust fault outcomes explicit (DESIGN 2.4): **which strings parse, which are reje
 
 Two layers.
 
-1. *Numeric conversions* exactly as the code does them:
-   `text::int(10).from_str::<u32|u64>().unwrapped()`, `v.parse::<usize>().unwrap()`,
-   `usize::from_str_radix(s, 16).unwrap()`, `-(val as i64)`.
-   `FromStr` for unsigned integers is a checked multiply-add loop (`parseDigits`); `Err(PosOverflow)` is turned
-   into a **panic** by `unwrapped()`/`unwrap()` (as found) or into an ordinary parse error (`Quirks.checked`,
-   the `try_map` repair).
+1. *Numeric conversions* exactly as the code does them: every decimal token goes through
+   `number::<T>()` = `text::int(10).from_str::<u32|u64|usize>().try_map(..)`, the hex digits of `hex()` through
+   `usize::from_str_radix(s, 16)` inside `try_map`; a negative integer literal is `(val as i64).wrapping_neg()`.
+   `FromStr` for unsigned integers is a checked multiply-add loop (`parseDigits`); `Err(PosOverflow)` is an ordinary
+   parse error of that alternative (`Quirks.checked`, the default).  Before the repair (BugStalker 49f358c, b81e8d8,
+   67375f8, 0af67fe) the conversions were `unwrapped()` / `unwrap()` / `-(val as i64)` and an out-of-range token was a
+   **panic**: that is the setting `asFound`, kept only so that the regression stays expressible in the model.
 
 2. *The grammar*, transcribed combinator by combinator into a small PEG datatype `G` (chumsky is a PEG: ordered
    choice, greedy repetition, no backtracking into a choice that succeeded) and interpreted by `run`.
@@ -25,23 +26,27 @@ open BsVerif.Gen.Cmds
 
 /-! ## 1. numeric conversions -/
 
-/-- `checked`: the repaired behaviour (`try_map`: overflow = parse error).  As found: `false`.
-`overflowChecks`: the build profile has overflow checks (`-(i64::MIN)` panics); dev/test profile: `true`. -/
+/-- `checked` (the code as it is): a failed conversion is a parse error (`try_map`) and the negation wraps.
+`checked = false`: the code as it was found (`unwrapped()` / `unwrap()` / `-(val as i64)`); then
+`overflowChecks` says whether the build profile has overflow checks (`-(i64::MIN)` panics; dev/test profile: `true`). -/
 structure Quirks where
-  checked : Bool := false
+  checked : Bool := true
   overflowChecks : Bool := true
   deriving Repr, DecidableEq
 
-def asFound : Quirks := {}
+/-- the code as it is -/
+def current : Quirks := {}
 def repaired : Quirks := { checked := true }
+/-- the code before the repair -/
+def asFound : Quirks := { checked := false }
 
 /-- call sites of numeric conversions -/
 inductive Site
-  | brkLine | brkNumber | sourceRange | watchNumber | threadSwitch | frameSwitch | triggerB | triggerW  -- `.unwrapped()`, mod.rs
-  | hex            -- `usize::from_str_radix(s, 16).unwrap()`, mod.rs:103
-  | litInt         -- `.from_str::<u64>().unwrapped()`, expression.rs:49
-  | litNeg         -- `-(val as i64)`, expression.rs:52
-  | sliceBound     -- `v.parse::<usize>().unwrap()`, expression.rs:161
+  | brkLine | brkNumber | sourceRange | watchNumber | threadSwitch | frameSwitch | triggerB | triggerW  -- `number()`, mod.rs
+  | hex            -- `usize::from_str_radix(s, 16)` of `hex()`, mod.rs
+  | litInt         -- `number::<u64>()`, expression.rs (`literal()`)
+  | litNeg         -- the negation of a signed literal, expression.rs
+  | sliceBound     -- `number::<usize>()`, expression.rs (`mb_usize`)
   deriving Repr, DecidableEq
 
 /-- coarse class of a panic (what the harness can recognise from the panic message/location) -/
@@ -85,17 +90,21 @@ def scanHex (s : List Char) : Option (List Char × List Char) :=
 def parseDec (bits : Nat) (tok : List Char) : Option Nat := parseDigits 10 bits (tok.map decVal) 0
 def parseHex (tok : List Char) : Option Nat := parseDigits 16 64 (tok.map hexVal) 0
 
-/-- `-(val as i64)` for `val : u64`: `val as i64` wraps; the negation overflows exactly for `val = 2^63`.
-`none` = "attempt to negate with overflow". -/
+/-- `-(val as i64)` for `val : u64` (the code before the repair): `val as i64` wraps; the negation overflows exactly
+for `val = 2^63`.  `none` = "attempt to negate with overflow". -/
 def negAsI64 (val : Nat) : Option Int :=
   let i : Int := if val < 2 ^ 63 then val else (val : Int) - 2 ^ 64
   if val = 2 ^ 63 then none else some (-i)
 
+/-- `(val as i64).wrapping_neg()` for `val : u64` (the code as it is): total. -/
+def wrappingNegAsI64 (val : Nat) : Int :=
+  if val ≤ 2 ^ 63 then -(val : Int) else (2 ^ 64 : Int) - val
+
 /-- numeric leaves of the grammar -/
 inductive NumTok
-  | dec (bits : Nat) (site : Site)   -- `text::int(10)` + conversion to an unsigned type of `bits` bits
-  | hexDigits                        -- hex digits (after the `0x` prefix) + `from_str_radix(.., 16).unwrap()`
-  | litInt                           -- `"-"? text::int(10)` + u64 conversion + `-(val as i64)`
+  | dec (bits : Nat) (site : Site)   -- `number::<T>()`: `text::int(10)` + conversion to an unsigned type of `bits` bits
+  | hexDigits                        -- hex digits (after the `0x` prefix) + `from_str_radix(.., 16)`
+  | litInt                           -- `"-"? number::<u64>()` + negation
   | intTok                           -- `text::int(10)` kept as a slice, no conversion (float literal, tuple field)
   deriving Repr, DecidableEq
 
@@ -110,7 +119,7 @@ def Res.isPanic : Res → Bool
   | .panic _ => true
   | _ => false
 
-/-- what an overflowing conversion does: panic (as found) / parse error (repaired) -/
+/-- what an overflowing conversion does: parse error (`try_map`) / panic (as found) -/
 def overflow (q : Quirks) (site : Site) : Res := if q.checked then .fail else .panic site
 
 def runNum (q : Quirks) : NumTok → List Char → Res
@@ -134,7 +143,8 @@ def runNum (q : Quirks) : NumTok → List Char → Res
     | some (tok, rest) => match parseDec 64 tok with
       | none => overflow q .litInt
       | some v =>
-        if neg && (negAsI64 v).isNone && q.overflowChecks then overflow q .litNeg else .ok rest
+        -- `wrapping_neg` is total; `-(val as i64)` (as found) overflowed on 2^63
+        if neg && !q.checked && (negAsI64 v).isNone && q.overflowChecks then .panic .litNeg else .ok rest
   | .intTok, s =>
     match scanInt s with
     | none => .fail
@@ -364,25 +374,6 @@ def parseLine (q : Quirks) (s : List Char) : Res := run q G.env (fuelFor s) G.co
 
 /-- `expression::parser().parse(s)` -/
 def parseDqe (q : Quirks) (s : List Char) : Res := run q G.env (fuelFor s) G.dqe s
-
-/-- all numeric leaves that occur in the grammar (used by the range predicate of the partial theorem) -/
-def allNumToks : List NumTok := [
-  .dec 64 .brkLine, .dec 32 .brkNumber, .dec 64 .sourceRange, .dec 32 .watchNumber, .dec 32 .threadSwitch,
-  .dec 32 .frameSwitch, .dec 32 .triggerB, .dec 32 .triggerW, .hexDigits, .litInt, .dec 64 .sliceBound, .intTok]
-
-/-- **Range predicate** (decidable, on the raw line): at no position of the line does a numeric token start
-that is out of range for a numeric leaf of the grammar — i.e. no decimal token ≥ 2^32 (≥ 2^64 would already
-overflow the u64 sites), no hex digit run ≥ 2^64, no `-9223372036854775808`. -/
-def tokensInRange (q : Quirks) : List Char → Bool
-  | [] => allNumToks.all fun n => !(runNum q n []).isPanic
-  | c :: cs => (allNumToks.all fun n => !(runNum q n (c :: cs)).isPanic) && tokensInRange q cs
-
-/-- the same, spelled with an explicit list of suffixes (equivalent; used nowhere in proofs) -/
-def suffixes {α} : List α → List (List α)
-  | [] => [[]]
-  | c :: cs => (c :: cs) :: suffixes cs
-def tokensInRange' (q : Quirks) (s : List Char) : Bool :=
-  (suffixes s).all fun t => allNumToks.all fun n => !(runNum q n t).isPanic
 
 def Res.toString : Res → String
   | .ok _ => "ok"
